@@ -197,8 +197,9 @@ def fams_c11(tier, seed):
 
 
 # window sweeps (lib/conc.py WINDOW_TEMPLATES) run with the monitors and oracles of the property's first conc profile
-_TIMED_S = ["timed-send-close", "timed-send-close-r", "timed-send-disc", "timed-sendo-disc", "timed-send-peer", "timed-sendo-peer", "slow-close", "slow-disc"]
-_TIMED_R = ["timed-recv-close", "timed-recv-disc", "timed-recv-peer", "timed-recv-try"]
+_TIMED_S = ["timed-send-close", "timed-send-close-r", "timed-send-disc", "timed-sendo-disc", "timed-send-peer", "timed-sendo-peer", "slow-close", "slow-disc",
+            "timed-send-holder", "timed-sendo-holder"]
+_TIMED_R = ["timed-recv-close", "timed-recv-disc", "timed-recv-peer", "timed-recv-try", "timed-recv-holder"]
 _REPOLL = ["repoll-recv-close", "repoll-recv-disc", "repoll-recv-peer", "repoll-send-close", "repoll-send-peer"]
 _FDROP = ["drop-recv-peer", "drop-send-peer", "drop-recv-close", "drop-send-close"]
 WINDOWS = {
